@@ -16,7 +16,7 @@ func init() {
 			return 4000
 		},
 		Gen: func(r *Rng, tier string, idx int) Case {
-			classes := []string{"walk", "halfstep", "jumps", "nearzero", "epoch", "uniform"}
+			classes := []string{"walk", "halfstep", "jumps", "nearzero", "epoch", "uniform", "highstate", "highstate"}
 			cl := classes[idx%len(classes)]
 			n := r.Range(2, 60)
 			ops := []string{}
@@ -27,10 +27,24 @@ func init() {
 			case "epoch":
 				cur = r.Pick(65535, 65534, 0, 1)
 			}
+			if cl == "highstate" {
+				// representative larger states: around multiples of 2^16 up to 2^47, in particular around 2^32
+				base := int64(1) << uint(r.Pick(17, 20, 31, 32, 32, 33, 40, 47))
+				if r.Bool() {
+					base = base*int64(r.Range(1, 3)) + int64(r.Pick(0, 65536, -65536))
+				}
+				start := base + int64(r.Range(-40000, 40000))
+				if start < 0 {
+					start = 0
+				}
+				ops = append(ops, fmt.Sprintf("set %d", start))
+				cur = int(start & 0xFFFF)
+				cur += r.Range(-32767, 32767)
+			}
 			for i := 0; i < n; i++ {
 				ops = append(ops, fmt.Sprintf("u %d", cur&0xFFFF))
 				switch cl {
-				case "walk", "nearzero", "epoch":
+				case "walk", "nearzero", "epoch", "highstate":
 					cur += r.Range(-32767, 32767)
 				case "halfstep":
 					cur += r.Pick(32768, -32768, 32767, -32767, 1, -1, 0)
@@ -49,8 +63,12 @@ func init() {
 			u := &verifhooks.Unwrapper{}
 			for _, op := range ops {
 				var n int
+				var n64 int64
 				if _, err := fmt.Sscanf(op, "u %d", &n); err == nil && n >= 0 && n < 65536 {
 					o.P("%d", u.Unwrap(uint16(n)))
+				} else if _, err := fmt.Sscanf(op, "set %d", &n64); err == nil && n64 >= 0 {
+					u = &verifhooks.Unwrapper{}
+					u.VerifSet(n64)
 				} else if op == "new" {
 					u = &verifhooks.Unwrapper{}
 				} else {
